@@ -58,19 +58,19 @@ class Proc:
         self.signal = None
 
 
-def run_proc(cmd, stdin_data=None, env=None, timeout=300, cpu=120, cwd=None, stdin_file=None):
+def run_proc(cmd, stdin_data=None, env=None, timeout=300, cpu=120, cwd=None, stdin_file=None, stdin_socket=False):
     """Run cmd with RLIMIT_CPU and a wall-clock watchdog. stdin is /dev/null unless given.
     The CPU limit is the verdict-relevant bound (load independent). A wall-clock expiry is re-run once with a
     four times longer watchdog before it is reported, so a loaded machine does not turn into 'hang' alarms."""
-    r = _run_proc_once(cmd, stdin_data, env, timeout, cpu, cwd, stdin_file)
+    r = _run_proc_once(cmd, stdin_data, env, timeout, cpu, cwd, stdin_file, stdin_socket)
     if r.timed_out:
-        r2 = _run_proc_once(cmd, stdin_data, env, timeout * 4, cpu, cwd, stdin_file)
+        r2 = _run_proc_once(cmd, stdin_data, env, timeout * 4, cpu, cwd, stdin_file, stdin_socket)
         r2.retried = True
         return r2
     return r
 
 
-def _run_proc_once(cmd, stdin_data=None, env=None, timeout=300, cpu=120, cwd=None, stdin_file=None):
+def _run_proc_once(cmd, stdin_data=None, env=None, timeout=300, cpu=120, cwd=None, stdin_file=None, stdin_socket=False):
     e = dict(BASE_ENV)
     if env:
         e.update(env)
@@ -83,15 +83,34 @@ def _run_proc_once(cmd, stdin_data=None, env=None, timeout=300, cpu=120, cwd=Non
     t0 = time.time()
     r = Proc()
     r.cmd = cmd
+    feeder = None
     if stdin_file is not None:
         sin = open(stdin_file, "rb")
+    elif stdin_data is not None and stdin_socket:
+        # standard input is a connected stream socket (inetd style / a parent that uses socketpair for stdio)
+        import socket
+        import threading
+        ours, sin = socket.socketpair()
+
+        def feed(sock=ours, data=stdin_data):
+            try:
+                sock.sendall(data)
+                sock.shutdown(socket.SHUT_WR)
+            except OSError:
+                pass
+            finally:
+                sock.close()
+        feeder = threading.Thread(target=feed, daemon=True)
     elif stdin_data is not None:
         sin = subprocess.PIPE
     else:
         sin = subprocess.DEVNULL
     p = subprocess.Popen(cmd, stdin=sin, stdout=subprocess.PIPE, stderr=subprocess.PIPE, env=e, preexec_fn=pre, cwd=cwd)
+    if feeder is not None:
+        sin.close()
+        feeder.start()
     try:
-        out, err = p.communicate(stdin_data if stdin_file is None else None, timeout=timeout)
+        out, err = p.communicate(stdin_data if (stdin_file is None and feeder is None) else None, timeout=timeout)
     except subprocess.TimeoutExpired:
         r.timed_out = True
         try:
@@ -102,6 +121,8 @@ def _run_proc_once(cmd, stdin_data=None, env=None, timeout=300, cpu=120, cwd=Non
     finally:
         if stdin_file is not None:
             sin.close()
+        if feeder is not None:
+            feeder.join(5)
     r.rc = p.returncode
     r.out = out
     r.err = err
@@ -451,7 +472,7 @@ class CliResult:
 
 
 def kalign_cli(paths, files, args=(), nthreads=None, out=None, stdin_data=None, stdin_file=None, env=None, quiet=True,
-               timeout=300, cpu=120, verif_log=None, cwd=None):
+               timeout=300, cpu=120, verif_log=None, cwd=None, stdin_socket=False):
     """Run the real CLI. files: list of paths. out: path for -o (None -> stdout)."""
     cmd = [paths["kalign"]]
     if quiet:
@@ -465,7 +486,7 @@ def kalign_cli(paths, files, args=(), nthreads=None, out=None, stdin_data=None, 
     e = dict(env or {})
     if verif_log:
         e["KALIGN_VERIF_LOG"] = verif_log
-    r = run_proc(cmd, stdin_data=stdin_data, stdin_file=stdin_file, env=e, timeout=timeout, cpu=cpu, cwd=cwd)
+    r = run_proc(cmd, stdin_data=stdin_data, stdin_file=stdin_file, env=e, timeout=timeout, cpu=cpu, cwd=cwd, stdin_socket=stdin_socket)
     res = CliResult()
     res.proc = r
     res.rc = r.rc
